@@ -1,7 +1,7 @@
 #!/bin/bash
 # tools/run_all.sh <tier> [seed]  -- runs every registered check once, prints one line each
 tier="${1:-quick}"; export VERIF_SEED="${2:-1}"
-cd /verif
+cd "$(dirname "$0")/.." || exit 2
 for id in C01 C02 C03 C04 C05 C06 C07 C08 C09 C10 C11 C12 C13 C14 C15 C16 C17 C18 C19 C20; do
   s=$(date +%s.%N)
   out=$(./vcheck $id $tier 2>&1); rc=$?
